@@ -307,7 +307,7 @@ theorem prefix_proper_dropLast {b k : Key} (h : b <+: k) (hne : b ≠ k) : b <+:
     · exact absurd h' hne
 
 theorem sat_tryBackup {k : Key} {w : World} (hinv : Inv S v0 w) (hk : PKey k) :
-    Sat (tryBackup cfg (kp k)) w (fun w' r => Adv S v0 w w' ∧ (r = .ok () → Tracked w' k)) := by
+    Sat (tryBackup cfg (kp k)) w (fun w' r => Adv S v0 w w' ∧ (r = .ok () → ∀ b, b <+: k → Tracked w' b)) := by
   unfold tryBackup
   apply Sat.bind
   apply (sat_backupRequired hinv hk).mono
@@ -343,13 +343,20 @@ theorem sat_tryBackup {k : Key} {w : World} (hinv : Inv S v0 w) (hk : PKey k) :
     | ok u2 =>
       simp only
       have hall := hall rfl
+      have hpref : ∀ w', (∀ b, b <+: d → Tracked w' b) → Tracked w' k → ∀ b, b <+: k → Tracked w' b := by
+        intro w' hd' hk' b hb
+        by_cases hbk : b = k
+        · subst hbk; exact hk'
+        · rcases hdk with rfl | rfl
+          · exact hd' b hb
+          · exact hd' b (prefix_proper_dropLast hb hbk)
       cases needsBackup with
       | false =>
         simp only [Bool.not_false, if_true]
         apply Sat.pure
         refine ⟨hadv12, fun _ => ?_⟩
         have : Tracked w1 k := by unfold Tracked; rw [hfalse rfl]; simp
-        exact this.mono hadv2
+        exact hpref w2 hall (this.mono hadv2)
       | true =>
         simp only [Bool.not_true, Bool.false_eq_true, if_false]
         obtain ⟨hun1, i, n, rfl, hv1, hfor⟩ := htrue rfl
@@ -363,7 +370,7 @@ theorem sat_tryBackup {k : Key} {w : World} (hinv : Inv S v0 w) (hk : PKey k) :
           refine ⟨hadv12, fun _ => ?_⟩
           have := hd_dir i rfl hisd
           subst this
-          exact hall d List.prefix_rfl
+          exact hall
         | false =>
           simp only [Bool.false_eq_true, if_false]
           have hdl := hd_file i rfl hisd
@@ -452,7 +459,10 @@ theorem sat_tryBackup {k : Key} {w : World} (hinv : Inv S v0 w) (hk : PKey k) :
             | ok u5 =>
               cases u5
               refine ⟨hadv6, fun _ => ?_⟩
-              exact (htr5 rfl).mono (Adv.of_same hadv5.inv hs6)
+              have hk6 : Tracked w6 k := (htr5 rfl).mono (Adv.of_same hadv5.inv hs6)
+              apply hpref w6 _ hk6
+              intro b hb
+              exact (((hall b hb).mono (Adv.of_same hadv2.inv hs3)).mono hadv5).mono (Adv.of_same hadv5.inv hs6)
 
 /-! ### realPath / prepare -/
 
@@ -533,7 +543,8 @@ theorem sat_realPath {name : Path} {k : Key} {w : World} (hg : S.G w.fs) (hk : P
 
 theorem sat_prepare {name : Path} {k : Key} {w : World} (hinv : Inv S v0 w) (hk : PKey k)
     (hname : clean name = kp k) :
-    Sat (prepare cfg name) w (fun w' r => Adv S v0 w w' ∧ ∀ p, r = .ok p → p = kp k ∧ Tracked w' k) := by
+    Sat (prepare cfg name) w (fun w' r => Adv S v0 w w' ∧
+      ∀ p, r = .ok p → p = kp k ∧ ∀ b, b <+: k → Tracked w' b) := by
   unfold prepare
   apply Sat.bind
   apply (sat_realPath (S := S) hinv.good hk hname).mono
